@@ -265,7 +265,8 @@ def _real_svg_infoset(repo, ob, failure):
     docs = ['<svg xmlns="http://www.w3.org/2000/svg"><text>a &amp; b &lt; c</text></svg>',
             '<svg xmlns="http://www.w3.org/2000/svg"><text>say &quot;hi&quot;</text><rect data-a="x &lt; y"/></svg>',
             '<svg xmlns="http://www.w3.org/2000/svg"><!-- c --><style><![CDATA[ a > b ]]></style><g><text>t</text></g></svg>',
-            '<svg><svg xmlns="http://www.w3.org/2000/svg"><text>a &amp; b</text></svg><rect wh="2"/></svg>']
+            '<svg><svg xmlns="http://www.w3.org/2000/svg"><text>a &amp; b</text></svg><rect wh="2"/></svg>',
+            '<svg><rect wh="1"/><svg xmlns="http://www.w3.org/2000/svg" wh="5" text="hi"/></svg>']
     # (the inputs of the known finding C03.text.whole are tried for that obligation only)
     blanks = ['<svg xmlns="http://www.w3.org/2000/svg"><text>line one   \n  two  </text></svg>',
               '<svg xmlns="http://www.w3.org/2000/svg"><text xml:space="preserve">x \n \ny</text></svg>']
